@@ -398,6 +398,12 @@ impl Workload for SchedWorkload {
                 if n > 10 {
                     o.len = o.len.min(3 * k + 60);
                 }
+                // now and then a genome much longer than any block size someone might choose
+                let long = kind.starts_with("map") && n <= 4 && rng.chance(6);
+                if long {
+                    o.len = rng.range(9000, 20000);
+                    o.snp_sites = rng.range(20, 80);
+                }
                 let mut all = gen_samples(&mut rng, n + 1, k, &o, "s");
                 let mut r = all.pop().unwrap();
                 r.name = "ref".into();
